@@ -219,7 +219,7 @@ def solve_one(job):
     return res
 
 
-def discharge(obligs, tier='quick', cross=False, procs=None):
+def discharge(obligs, tier='quick', cross=False, procs=None, threads=False):
     """obligs: list of Obligation -> list of result dicts (same order)"""
     os.makedirs(OUT, exist_ok=True)
     jobs, results = [], [None] * len(obligs)
@@ -239,6 +239,11 @@ def discharge(obligs, tier='quick', cross=False, procs=None):
         procs = procs or min(16, max(1, len(jobs)))
         if procs == 1 or len(jobs) == 1:
             outs = [solve_one(j) for _, j in jobs]
+        elif threads:
+            # inside a (daemonic) worker process: the back ends are external processes, so threads give the parallelism
+            from concurrent.futures import ThreadPoolExecutor
+            with ThreadPoolExecutor(max_workers=procs) as tp:
+                outs = list(tp.map(solve_one, [j for _, j in jobs]))
         else:
             ctx = mp.get_context('fork')
             with ctx.Pool(procs) as pool:
